@@ -115,6 +115,7 @@ type Exec struct {
 
 	// environment model
 	locks    map[*value]*lockState
+	syncMaps map[*value]*omap // engine-side state of sync.Map instances
 	thread   int
 	nextObj  int
 	objIDs   map[interface{}]int
